@@ -95,6 +95,10 @@ IntendedB(ev) ==
 (* multi-key batches on a HashClient are validated and sent key by key *)
 AllOrNothing(ev) == ev.stack \in {"client", "pooled"}
 
+(* a value whose stored form the check does not predict (buffer objects without a serializer): whatever the client makes *)
+(* of it, what goes out must still be well-formed commands -- only the exact payload is left open                       *)
+Opaque(ev) == "opaque" \in DOMAIN ev /\ ev.opaque
+
 WMonInit(h) == [n |-> 0]
 WMonClauses(m, ev) ==
   << <<"C02-outcome-is-input-error-or-sent", ev.outcome \in {"illegal", "sent"}>>,
@@ -104,11 +108,11 @@ WMonClauses(m, ev) ==
      <<"C02-illegal-key-never-reaches-the-wire",
            (~ev.badarg /\ ~AllLegal(ev) /\ AllOrNothing(ev)) => (ev.outcome = "illegal" /\ ev.nsent = 0)>>,
      <<"C02-what-is-sent-parses-as-exactly-the-intended-commands",
-           (ev.outcome = "sent" /\ ~ev.badarg /\ AllLegal(ev)) => (ev.cmds = Intended(ev) /\ ev.leftover = 0)>>,
+           (ev.outcome = "sent" /\ ~ev.badarg /\ ~Opaque(ev) /\ AllLegal(ev)) => (ev.cmds = Intended(ev) /\ ev.leftover = 0)>>,
      <<"C02-nothing-unparseable-is-sent",
            (ev.nsent > 0 /\ AllOrNothing(ev)) => (ev.leftover = 0 /\ \A i \in DOMAIN ev.cmds : ev.cmds[i].verb # "PARSE-ERROR")>>,
      <<"C02-the-bytes-sent-tokenize-to-exactly-the-intended-commands",
-           (ev.hasraw /\ ev.outcome = "sent" /\ ~ev.badarg /\ AllLegal(ev))
+           (ev.hasraw /\ ev.outcome = "sent" /\ ~ev.badarg /\ ~Opaque(ev) /\ AllLegal(ev))
               => Tokenize(ev.raw) = [cmds |-> IntendedB(ev), left |-> 0]>>,
      <<"C02-the-bytes-sent-tokenize-without-error",
            (ev.hasraw /\ ev.nsent > 0 /\ AllOrNothing(ev))
